@@ -29,9 +29,10 @@ VARIABLES cfg,      \* the configuration of this run
           negIdx,   \* indices drawn for the negative phase (<<>> on path A)
           hist,     \* observable event history
           inj,      \* number of stop requests injected so far
-          cbs       \* per-callback state (records of evaluators, saver, logger, stopper)
+          cbs,      \* per-callback state (records of evaluators, saver, logger, stopper)
+          carry     \* <<>> or what the previous fit() on the same callbacks left behind
 
-vars == <<cfg, pc, ep, b, net, stop, pver, sched, perm, negIdx, hist, inj, cbs>>
+vars == <<cfg, pc, ep, b, net, stop, pver, sched, perm, negIdx, hist, inj, cbs, carry>>
 
 -----------------------------------------------------------------------------
 (* Configuration *)
@@ -57,6 +58,8 @@ CfgOK(c) ==
     /\ (HasBases(c) => Len(c.bases) = c.N /\ Len(ZSeq(c)) >= 1)   \* precondition: >= 1 all-Z row
     /\ (c.type = "positive" => ~HasBases(c))
     /\ (c.type # "positive" => HasBases(c))      \* complex / mixed states refuse to train without bases
+    /\ c.again \in {"no", "keep", "clear", "keepStop"}
+    /\ (c.again # "no" => \A i \in 1..NCb(c) : c.cbs[i].t # "early")
     /\ NCb(c) >= 1 /\ \E i \in 1..NCb(c) : c.cbs[i].t = "rec"
 
 IsPerm(p, n) == /\ Len(p) = n
@@ -177,12 +180,13 @@ InitWith(c) ==
     /\ perm = <<>> /\ negIdx = <<>>
     /\ hist = <<>> /\ inj = 0
     /\ cbs = [i \in 1..NCb(c) |-> <<>>]
+    /\ carry = <<>>
 
 Init ==
     /\ \E s \in Shards : cfg = [shard |-> s]
     /\ pc = "Pick"
     /\ ep = -1 /\ b = -1 /\ net = 0 /\ stop = FALSE /\ pver = 0 /\ sched = 0
-    /\ perm = <<>> /\ negIdx = <<>> /\ hist = <<>> /\ inj = 0 /\ cbs = <<>>
+    /\ perm = <<>> /\ negIdx = <<>> /\ hist = <<>> /\ inj = 0 /\ cbs = <<>> /\ carry = <<>>
 
 \* the user constructs the run: configuration, callbacks, a stop possibly already requested
 Pick ==
@@ -190,13 +194,13 @@ Pick ==
     /\ \E c \in CfgsOf(cfg.shard) :
           /\ cfg' = c /\ stop' = c.entryStop /\ cbs' = [i \in 1..NCb(c) |-> <<>>]
     /\ pc' = "Entry"
-    /\ UNCHANGED <<ep, b, net, pver, sched, perm, negIdx, hist, inj>>
+    /\ UNCHANGED <<ep, b, net, pver, sched, perm, negIdx, hist, inj, carry>>
 
 \* `if self.stop_training: return` -- nothing happens at all
 Entry ==
     /\ pc = "Entry"
     /\ pc' = IF stop THEN "Done" ELSE "TS"
-    /\ UNCHANGED <<cfg, ep, b, net, stop, pver, sched, perm, negIdx, hist, inj, cbs>>
+    /\ UNCHANGED <<cfg, ep, b, net, stop, pver, sched, perm, negIdx, hist, inj, cbs, carry>>
 
 SchedOrEE == IF cfg.sched THEN "SC" ELSE "EE"
 
@@ -216,7 +220,7 @@ TrainStart ==
     /\ IF cfg.startEp <= cfg.epochs
        THEN pc' = "SH" /\ ep' = cfg.startEp
        ELSE pc' = "TE" /\ ep' = ep
-    /\ UNCHANGED <<cfg, b, net, pver, sched, perm, negIdx>>
+    /\ UNCHANGED <<cfg, b, net, pver, sched, perm, negIdx, carry>>
 
 \* _shuffle_data: one randperm, then (paths B, C) one randint; runs BEFORE on_epoch_start
 ShuffleWith(p, ni) ==
@@ -225,20 +229,20 @@ ShuffleWith(p, ni) ==
     /\ perm' = p /\ negIdx' = ni
     /\ hist' = Append(hist, [k |-> "SH", ep |-> ep, perm |-> p, neg |-> ni])
     /\ pc' = "ES" /\ b' = 0
-    /\ UNCHANGED <<cfg, ep, net, stop, pver, sched, inj, cbs>>
+    /\ UNCHANGED <<cfg, ep, net, stop, pver, sched, inj, cbs, carry>>
 Shuffle == pc = "SH" /\ \E p \in PermCands(cfg), ni \in NegCands(cfg) : ShuffleWith(p, ni)
 
 EpochStart ==
     /\ pc = "ES"
     /\ \E ia \in InjChoices : DispatchStep("ES", ep, -1, ia)
     /\ pc' = "BS"
-    /\ UNCHANGED <<cfg, ep, b, net, pver, sched, perm, negIdx>>
+    /\ UNCHANGED <<cfg, ep, b, net, pver, sched, perm, negIdx, carry>>
 
 BatchStart ==
     /\ pc = "BS"
     /\ \E ia \in InjChoices : DispatchStep("BS", ep, b, ia)
     /\ pc' = "CG"
-    /\ UNCHANGED <<cfg, ep, b, net, pver, sched, perm, negIdx>>
+    /\ UNCHANGED <<cfg, ep, b, net, pver, sched, perm, negIdx, carry>>
 
 \* compute_batch_gradients(k, samples_batch, neg_batch[, bases_batch])
 Compute ==
@@ -248,27 +252,27 @@ Compute ==
                              bas |-> PosBases(cfg, perm, b),
                              neg |-> NegRows(cfg, perm, negIdx, b)])
     /\ pc' = "ZG"
-    /\ UNCHANGED <<cfg, ep, b, net, stop, pver, sched, perm, negIdx, inj, cbs>>
+    /\ UNCHANGED <<cfg, ep, b, net, stop, pver, sched, perm, negIdx, inj, cbs, carry>>
 
 ZeroGrad ==
     /\ pc = "ZG"
     /\ hist' = Append(hist, [k |-> "ZG", ep |-> ep, b |-> b])
     /\ pc' = "AS" /\ net' = 1
-    /\ UNCHANGED <<cfg, ep, b, stop, pver, sched, perm, negIdx, inj, cbs>>
+    /\ UNCHANGED <<cfg, ep, b, stop, pver, sched, perm, negIdx, inj, cbs, carry>>
 
 \* vector_to_grads(all_grads[i], rbm.parameters()) for the networks in order
 Assign ==
     /\ pc = "AS"
     /\ hist' = Append(hist, [k |-> "AS", ep |-> ep, b |-> b, net |-> net])
     /\ IF net < Nets(cfg) THEN net' = net + 1 /\ pc' = "AS" ELSE net' = 0 /\ pc' = "OS"
-    /\ UNCHANGED <<cfg, ep, b, stop, pver, sched, perm, negIdx, inj, cbs>>
+    /\ UNCHANGED <<cfg, ep, b, stop, pver, sched, perm, negIdx, inj, cbs, carry>>
 
 OptStep ==
     /\ pc = "OS"
     /\ pver' = pver + 1
     /\ hist' = Append(hist, [k |-> "OS", ep |-> ep, b |-> b, pv |-> pver + 1])
     /\ pc' = "BE"
-    /\ UNCHANGED <<cfg, ep, b, net, stop, sched, perm, negIdx, inj, cbs>>
+    /\ UNCHANGED <<cfg, ep, b, net, stop, sched, perm, negIdx, inj, cbs, carry>>
 
 BatchEnd ==
     /\ pc = "BE"
@@ -276,7 +280,7 @@ BatchEnd ==
     /\ IF stop' THEN pc' = SchedOrEE /\ b' = b                  \* break
        ELSE IF b + 1 < NB(cfg) THEN pc' = "BS" /\ b' = b + 1
        ELSE pc' = SchedOrEE /\ b' = b
-    /\ UNCHANGED <<cfg, ep, net, pver, sched, perm, negIdx>>
+    /\ UNCHANGED <<cfg, ep, net, pver, sched, perm, negIdx, carry>>
 
 \* scheduler.step(): once per started epoch, after the batch loop, before on_epoch_end
 SchedStep ==
@@ -284,7 +288,7 @@ SchedStep ==
     /\ sched' = sched + 1
     /\ hist' = Append(hist, [k |-> "SC", ep |-> ep, n |-> sched + 1])
     /\ pc' = "EE"
-    /\ UNCHANGED <<cfg, ep, b, net, stop, pver, perm, negIdx, inj, cbs>>
+    /\ UNCHANGED <<cfg, ep, b, net, stop, pver, perm, negIdx, inj, cbs, carry>>
 
 EpochEnd ==
     /\ pc = "EE"
@@ -292,24 +296,43 @@ EpochEnd ==
     /\ IF stop' THEN pc' = "TE" /\ ep' = ep                     \* break
        ELSE IF ep + 1 <= cfg.epochs THEN pc' = "SH" /\ ep' = ep + 1
        ELSE pc' = "TE" /\ ep' = ep
-    /\ UNCHANGED <<cfg, b, net, pver, sched, perm, negIdx>>
+    /\ UNCHANGED <<cfg, b, net, pver, sched, perm, negIdx, carry>>
 
 TrainEnd ==
     /\ pc = "TE"
     /\ \E ia \in InjChoices : DispatchStep("TE", -1, -1, ia)
     /\ pc' = "Done"
-    /\ UNCHANGED <<cfg, ep, b, net, pver, sched, perm, negIdx>>
+    /\ UNCHANGED <<cfg, ep, b, net, pver, sched, perm, negIdx, carry>>
 
-Next == \/ Pick \/ Entry \/ TrainStart \/ Shuffle \/ EpochStart \/ BatchStart \/ Compute
+\* A second fit() with the same callback objects (cfg.again): the user may clear the
+\* evaluators' history in between ("clear") or not ("keep"), and resets the stop flag unless
+\* "keepStop".  Records of savers / loggers / evaluators accumulate across runs.
+Restart ==
+    /\ pc = "Done" /\ cfg.again \in {"keep", "clear", "keepStop"}
+    /\ carry' = [hist |-> hist, cbs |-> cbs, stop |-> stop, pver |-> pver, again |-> cfg.again]
+    /\ cbs' = [i \in 1..NCb(cfg) |->
+                 IF cfg.again = "clear" /\ cfg.cbs[i].t = "eval" THEN <<>> ELSE cbs[i]]
+    /\ stop' = (cfg.again = "keepStop" /\ stop)
+    /\ cfg' = [cfg EXCEPT !.again = "no", !.entryStop = (cfg.again = "keepStop" /\ stop)]
+    /\ pc' = "Entry" /\ ep' = -1 /\ b' = -1 /\ net' = 0 /\ sched' = 0
+    /\ perm' = <<>> /\ negIdx' = <<>> /\ hist' = <<>> /\ inj' = 0
+    /\ UNCHANGED pver
+
+Next == \/ Pick \/ Restart \/ Entry \/ TrainStart \/ Shuffle \/ EpochStart \/ BatchStart \/ Compute
         \/ ZeroGrad \/ Assign \/ OptStep \/ BatchEnd \/ SchedStep \/ EpochEnd \/ TrainEnd
 
 Spec == Init /\ [][Next]_vars /\ WF_vars(Next)
 
-Terminates == <>(pc = "Done")
+Terminates == <>(pc = "Done" /\ cfg.again = "no")
 
 -----------------------------------------------------------------------------
 (* Properties.  They are stated over the observable history, independently of
    the control structure above. *)
+
+\* records carried over from a previous run on the same callback objects
+Base(i) == IF carry = <<>> THEN <<>>
+           ELSE IF carry.again = "clear" /\ cfg.cbs[i].t = "eval" THEN <<>> ELSE carry.cbs[i]
+BasePver == IF carry = <<>> THEN 0 ELSE carry.pver
 
 \* the logical callback events: what the first recording callback saw
 First == CHOOSE i \in RecIdx(cfg) : \A j \in RecIdx(cfg) : i <= j
@@ -376,7 +399,7 @@ StopHonoured0 ==
 Complete0 ==
     pc = "Done" =>
       LET H == CbH IN
-      IF cfg.entryStop THEN hist = <<>> /\ pver = 0 /\ stop
+      IF cfg.entryStop THEN hist = <<>> /\ pver = BasePver /\ stop
       ELSE /\ Len(H) >= 2 /\ H[1].k = "TS" /\ H[Len(H)].k = "TE"
            /\ \A i \in 2..(Len(H) - 1) : H[i].k \notin {"TS", "TE"}
            \* every started epoch is ended
@@ -457,15 +480,20 @@ OnSchedule0 ==
       LET d == cfg.cbs[i]
           due == SelectSeq(EEs, LAMBDA e : e.ep % d.period = 0) IN
       CASE d.t = "eval" ->
-             /\ Len(cbs[i]) = Len(due)
-             /\ \A j \in 1..Len(due) : cbs[i][j] = <<due[j].ep, Val(cfg, due[j].ep), Var(cfg, due[j].ep)>>
+             /\ Len(cbs[i]) = Len(Base(i)) + Len(due)
+             /\ SubSeq(cbs[i], 1, Len(Base(i))) = Base(i)
+             /\ \A j \in 1..Len(due) :
+                   cbs[i][Len(Base(i)) + j] = <<due[j].ep, Val(cfg, due[j].ep), Var(cfg, due[j].ep)>>
         [] d.t = "logger" ->
-             /\ Len(cbs[i]) = Len(due) /\ \A j \in 1..Len(due) : cbs[i][j] = due[j].ep
+             /\ Len(cbs[i]) = Len(Base(i)) + Len(due)
+             /\ SubSeq(cbs[i], 1, Len(Base(i))) = Base(i)
+             /\ \A j \in 1..Len(due) : cbs[i][Len(Base(i)) + j] = due[j].ep
         [] d.t = "saver" ->
              LET ini == IF d.initial /\ Len(CbH) >= 1 THEN 1 ELSE 0 IN
-             /\ Len(cbs[i]) = ini + Len(due)
-             /\ (ini = 1 => cbs[i][1] = <<-1, 0>>)
-             /\ \A j \in 1..Len(due) : cbs[i][ini + j] = <<due[j].ep, due[j].pv>>
+             /\ Len(cbs[i]) = Len(Base(i)) + ini + Len(due)
+             /\ SubSeq(cbs[i], 1, Len(Base(i))) = Base(i)
+             /\ (ini = 1 => cbs[i][Len(Base(i)) + 1] = <<-1, CbH[1].pv>>)
+             /\ \A j \in 1..Len(due) : cbs[i][Len(Base(i)) + ini + j] = <<due[j].ep, due[j].pv>>
         [] OTHER -> TRUE
 
 (* C18: the stopper fires at the first checked epoch satisfying the documented
